@@ -1,6 +1,7 @@
 (* C12 -- thumbprints follow RFC 7638 and agree with key equality.
    Only statements, each closed by [exact] of a lemma proved elsewhere. *)
 From JoseV Require Import Jwk.Pub Jwk.Thp Jwk.ThpProofs Jwk.PubProofs Base.JsonEq Base.JsonDump Gen.Tables.
+From JoseV Require Import Codec.B64Spec Codec.B64Json Jwk.Gen Jwk.Conv Jwk.ConvProofs.
 Local Open Scope N_scope.
 
 (* the generated required-member lists are RFC 7638's: oct k; RSA e n; EC crv x y *)
@@ -99,4 +100,306 @@ Example C12_ex :
   jwk_str (JObj [([107; 116; 121], JStr [82; 83; 65]); ([110], JStr [65; 81]); ([101], JStr [65; 81; 65; 66]);
                  ([97; 108; 103], JStr [82; 83; 50; 53; 54]); ([107; 105; 100], JStr [49])])
   = Some [123; 34; 101; 34; 58; 34; 65; 81; 65; 66; 34; 44; 34; 107; 116; 121; 34; 58; 34; 82; 83; 65; 34; 44; 34; 110; 34; 58; 34; 65; 81; 34; 125].
+Proof. vm_compute. reflexivity. Qed.
+
+(* ================================================================================================== *)
+(* Conversion to the OpenSSL key representation and back (jose/openssl.h; model: Jwk/Conv.v, which lists the
+   OpenSSL behaviours it assumes; proofs: Jwk/ConvProofs.v).
+   [conv valid] = jose_openssl_jwk_to_EVP_PKEY ; jose_openssl_jwk_from_EVP_PKEY,
+   [conv_typed valid] = to_RSA ; from_RSA / to_EC_KEY ; from_EC_KEY, [valid] = EC_KEY_check_key (any function). *)
+
+(* what the canonical-form premises below say *)
+Theorem C12_conv_canonical_means :
+  (forall v, c_min_member v = true <-> exists s c r, v = JStr s /\ dec s = Some (c :: r) /\ c <> 0) /\
+  (forall len v, c_fixed_member len v = true <->
+     exists s b, v = JStr s /\ dec s = Some b /\ blen b = len /\ g_os2ip b <> 0).
+Proof. exact (conj c_min_member_iff c_fixed_member_iff). Qed.
+Print Assumptions C12_conv_canonical_means.
+
+(* the EVP_PKEY route dispatches on kty exactly; the type-specific routes agree with it *)
+Theorem C12_conv_routes : forall valid j,
+  (g_req_s g_kty j = Some g_RSA -> conv valid j = conv_rsa j /\ conv_typed valid j = conv_rsa j /\ conv_is_oct j = false) /\
+  (g_req_s g_kty j = Some g_EC -> conv valid j = conv_ec valid j /\ conv_typed valid j = conv_ec valid j /\ conv_is_oct j = false) /\
+  (g_req_s g_kty j = Some g_oct -> conv valid j = conv_oct j /\ conv_typed valid j = None /\ conv_is_oct j = true) /\
+  (conv_is_oct j = false -> conv_typed valid j = conv valid j).
+Proof.
+  exact (fun valid j => conj (conv_route_rsa valid j) (conj (conv_route_ec valid j)
+                          (conj (conv_route_oct valid j) (conv_typed_agrees valid j)))).
+Qed.
+Print Assumptions C12_conv_routes.
+
+(* (a)+(b) RSA: n, e minimal-length, d p q dp dq qi minimal-length or absent, p,q both or neither, dp,dq,qi all or
+   none: every one of the eight members comes back EQUAL, nothing else but kty does, thumbprint input, thumbprints
+   (every hash) and jose_jwk_eql are preserved.  No size bound. *)
+Theorem C12_conv_rsa_roundtrip : forall valid j,
+  lookup g_kty j = Some (JStr g_RSA) -> c_rsa_canonical j = true ->
+  exists j', conv valid j = Some j' /\ conv_typed valid j = Some j' /\
+    lookup g_kty j' = lookup g_kty j /\
+    (forall m, In m c_rsa_key_members -> lookup m j' = lookup m j) /\
+    (forall m, m <> g_kty -> ~ In m c_rsa_key_members -> lookup m j' = None) /\
+    thp_object j' = thp_object j /\ thp_object j <> None /\ jwk_eql j j' = true /\
+    (forall h, jwk_thp j' h = jwk_thp j h).
+Proof. exact conv_rsa_clause. Qed.
+Print Assumptions C12_conv_rsa_roundtrip.
+
+(* for thumbprint and equality alone, n and e minimal-length is enough *)
+Theorem C12_conv_rsa_thp_needs_n_e : forall valid j j',
+  lookup g_kty j = Some (JStr g_RSA) -> conv valid j = Some j' ->
+  c_req_min (lookup g_n j) = true -> c_req_min (lookup g_e j) = true ->
+  thp_object j' = thp_object j /\ thp_object j <> None /\ jwk_eql j j' = true /\
+  (forall h, jwk_thp j' h = jwk_thp j h).
+Proof. exact conv_rsa_preserves_thp_ne. Qed.
+Print Assumptions C12_conv_rsa_thp_needs_n_e.
+
+(* (a)+(b) EC: crv one of the four names, x y (and d) of exactly the field length, non-zero, x y below the field
+   prime, the key accepted by OpenSSL's check: crv, x, y, d all come back EQUAL, nothing else but kty does *)
+Theorem C12_conv_ec_roundtrip : forall valid c j,
+  lookup g_kty j = Some (JStr g_EC) -> lookup g_crv j = Some (JStr (g_curve_name c)) ->
+  c_req_fixed (g_curve_len c) (lookup g_x j) = true -> c_req_fixed (g_curve_len c) (lookup g_y j) = true ->
+  c_opt_fixed (g_curve_len c) (lookup g_d j) = true ->
+  c_num (lookup g_x j) < g_curve_p c -> c_num (lookup g_y j) < g_curve_p c ->
+  valid c (c_num (lookup g_x j)) (c_num (lookup g_y j)) (c_num_opt (lookup g_d j)) = true ->
+  exists j', conv valid j = Some j' /\ conv_typed valid j = Some j' /\
+    lookup g_kty j' = lookup g_kty j /\
+    (forall m, In m c_ec_key_members -> lookup m j' = lookup m j) /\
+    (forall m, m <> g_kty -> ~ In m c_ec_key_members -> lookup m j' = None) /\
+    thp_object j' = thp_object j /\ thp_object j <> None /\ jwk_eql j j' = true /\
+    (forall h, jwk_thp j' h = jwk_thp j h).
+Proof. exact conv_ec_clause. Qed.
+Print Assumptions C12_conv_ec_roundtrip.
+
+(* (a)+(b) oct: "k" any base64url string of at least one octet, leading zero octets included *)
+Theorem C12_conv_oct_roundtrip : forall valid j s b,
+  lookup g_kty j = Some (JStr g_oct) -> lookup g_k j = Some (JStr s) -> dec s = Some b -> b <> [] ->
+  exists j', conv valid j = Some j' /\ j' = JObj [(g_kty, JStr g_oct); (g_k, JStr s)] /\
+    lookup g_kty j' = lookup g_kty j /\ lookup g_k j' = lookup g_k j /\
+    thp_object j' = thp_object j /\ thp_object j <> None /\ jwk_eql j j' = true /\
+    (forall h, jwk_thp j' h = jwk_thp j h).
+Proof. exact conv_oct_clause. Qed.
+Print Assumptions C12_conv_oct_roundtrip.
+
+Theorem C12_conv_oct_exact : forall j j',
+  conv_oct j = Some j' <->
+  exists s b, lookup g_k j = Some (JStr s) /\ dec s = Some b /\ b <> [] /\ j' = JObj [(g_kty, JStr g_oct); (g_k, JStr s)].
+Proof. exact conv_oct_spec. Qed.
+Print Assumptions C12_conv_oct_exact.
+
+(* the octets of "k" / of a number member are read by the C two-call pattern of jose_b64_dec *)
+Theorem C12_conv_b64_octets_is_c : forall o, c_b64_octets_c o = c_b64_octets o.
+Proof. exact c_b64_octets_is_c. Qed.
+Print Assumptions C12_conv_b64_octets_is_c.
+
+(* THE GENERAL RSA STATEMENT: every successful conversion re-encodes each numeric member from its value at
+   minimal length, keeps present present and absent absent, and has nothing else *)
+Theorem C12_conv_rsa_members : forall j j', conv_rsa j = Some j' ->
+  lookup g_kty j' = Some (JStr g_RSA) /\
+  (forall m, In m c_rsa_key_members ->
+     lookup m j' = c_renorm 0 (lookup m j) /\ (lookup m j <> None -> lookup m j' <> None)) /\
+  (forall m, m <> g_kty -> ~ In m c_rsa_key_members -> lookup m j' = None).
+Proof. exact conv_rsa_members. Qed.
+Print Assumptions C12_conv_rsa_members.
+
+(* exactly which RSA keys convert *)
+Theorem C12_conv_rsa_accepts_iff : forall j, conv_rsa j <> None <-> c_rsa_acceptable j = true.
+Proof. exact conv_rsa_accepts_iff. Qed.
+Print Assumptions C12_conv_rsa_accepts_iff.
+
+(* (c) the boundary: value preserved, text re-normalised *)
+Theorem C12_conv_rsa_member_renormalised : forall j j' m s b,
+  conv_rsa j = Some j' -> In m c_rsa_key_members -> lookup m j = Some (JStr s) -> dec s = Some b ->
+  lookup m j' = Some (JStr (enc (c_strip b))) /\ g_os2ip (c_strip b) = g_os2ip b /\ g_os2ip b <> 0.
+Proof. exact conv_rsa_member_renormalised. Qed.
+Print Assumptions C12_conv_rsa_member_renormalised.
+
+Theorem C12_conv_rsa_leading_zero_dropped : forall j j' m s r,
+  conv_rsa j = Some j' -> In m c_rsa_key_members -> lookup m j = Some (JStr s) -> dec s = Some (0 :: r) ->
+  lookup m j' = Some (JStr (enc (c_strip r))) /\ lookup m j' <> lookup m j /\
+  g_bn_decode_json (JStr (enc (c_strip r))) = g_bn_decode_json (JStr s).
+Proof. exact conv_rsa_leading_zero_dropped. Qed.
+Print Assumptions C12_conv_rsa_leading_zero_dropped.
+
+Theorem C12_conv_ec_members : forall valid j j', conv_ec valid j = Some j' ->
+  exists c,
+    g_req_s g_kty j = Some g_EC /\ g_req_s g_crv j = Some (g_curve_name c) /\
+    lookup g_kty j' = Some (JStr g_EC) /\ lookup g_crv j' = Some (JStr (g_curve_name c)) /\
+    lookup g_x j' = c_renorm_mod (g_curve_p c) (g_curve_len c) (lookup g_x j) /\ lookup g_x j' <> None /\
+    lookup g_y j' = c_renorm_mod (g_curve_p c) (g_curve_len c) (lookup g_y j) /\ lookup g_y j' <> None /\
+    lookup g_d j' = c_renorm (g_curve_len c) (lookup g_d j) /\ (lookup g_d j <> None -> lookup g_d j' <> None) /\
+    (forall m, m <> g_kty -> ~ In m c_ec_key_members -> lookup m j' = None) /\
+    valid c (c_num (lookup g_x j) mod g_curve_p c) (c_num (lookup g_y j) mod g_curve_p c) (c_num_opt (lookup g_d j)) = true.
+Proof. exact conv_ec_members. Qed.
+Print Assumptions C12_conv_ec_members.
+
+Theorem C12_conv_ec_short_coordinate_padded : forall valid j j' m s b c,
+  conv_ec valid j = Some j' -> m = g_x \/ m = g_y -> lookup m j = Some (JStr s) -> dec s = Some b ->
+  g_req_s g_crv j = Some (g_curve_name c) -> blen b < g_curve_len c ->
+  lookup m j' = Some (JStr (enc (repeatN 0 (N.to_nat (g_curve_len c) - length b) ++ b))) /\
+  lookup m j' <> lookup m j.
+Proof. exact conv_ec_short_coordinate_padded. Qed.
+Print Assumptions C12_conv_ec_short_coordinate_padded.
+
+(* a coordinate not below the field prime is accepted and comes back REDUCED: the value is not preserved *)
+Theorem C12_conv_ec_coordinate_reduced : forall valid j j' m s b c,
+  conv_ec valid j = Some j' -> m = g_x \/ m = g_y -> lookup m j = Some (JStr s) -> dec s = Some b ->
+  g_req_s g_crv j = Some (g_curve_name c) -> g_curve_p c <= g_os2ip b ->
+  exists v', lookup m j' = Some v' /\
+    g_bn_decode_json v' = Some (g_os2ip b mod g_curve_p c) /\
+    g_bn_decode_json v' <> g_bn_decode_json (JStr s).
+Proof. exact conv_ec_coordinate_reduced. Qed.
+Print Assumptions C12_conv_ec_coordinate_reduced.
+
+Theorem C12_conv_ec_d_renormalised : forall valid j j' s b,
+  conv_ec valid j = Some j' -> lookup g_d j = Some (JStr s) -> dec s = Some b ->
+  exists c, g_req_s g_crv j = Some (g_curve_name c) /\
+    lookup g_d j' = Some (JStr (enc (g_be (N.to_nat (g_curve_len c)) (g_os2ip b)))) /\
+    g_os2ip b <> 0 /\ g_num_bytes (g_os2ip b) <= g_curve_len c.
+Proof. exact conv_ec_d_renormalised. Qed.
+Print Assumptions C12_conv_ec_d_renormalised.
+
+(* (d) nothing but kty and the key members of the type is carried through *)
+Theorem C12_conv_only_key_members : forall valid j j' kty,
+  conv valid j = Some j' -> g_req_s g_kty j = Some kty ->
+  lookup g_kty j' = Some (JStr kty) /\
+  forall m, m <> g_kty -> ~ In m (c_key_members_of kty) -> lookup m j' = None.
+Proof. exact conv_only_key_members. Qed.
+Print Assumptions C12_conv_only_key_members.
+
+Theorem C12_conv_drops_non_key_members : forall valid j j',
+  conv valid j = Some j' ->
+  lookup g_alg j' = None /\ lookup c_kid j' = None /\ lookup g_use j' = None /\ lookup g_key_ops j' = None.
+Proof. exact conv_drops_non_key_members. Qed.
+Print Assumptions C12_conv_drops_non_key_members.
+
+(* (e) never a success that drops one of n e d p q dp dq qi / crv x y d / k *)
+Theorem C12_conv_never_drops : forall valid j j' kty,
+  conv valid j = Some j' -> g_req_s g_kty j = Some kty ->
+  forall m, In m (c_key_members_of kty) -> lookup m j <> None -> lookup m j' <> None.
+Proof. exact conv_never_drops. Qed.
+Print Assumptions C12_conv_never_drops.
+
+Theorem C12_conv_unknown_kty : forall valid j,
+  (forall kty, g_req_s g_kty j = Some kty -> kty <> g_EC /\ kty <> g_RSA /\ kty <> g_oct) -> conv valid j = None.
+Proof. exact conv_unknown_kty. Qed.
+Print Assumptions C12_conv_unknown_kty.
+
+Theorem C12_conv_kty_case_sensitive : forall valid j kty t,
+  g_req_s g_kty j = Some kty -> In t [g_EC; g_RSA; g_oct] -> strcasecmp_eq kty t = true -> kty <> t ->
+  conv valid j = None /\ find_type_ci kty <> None.
+Proof. exact conv_kty_case_sensitive. Qed.
+Print Assumptions C12_conv_kty_case_sensitive.
+
+Theorem C12_conv_rsa_missing_required : forall j, lookup g_n j = None \/ lookup g_e j = None -> conv_rsa j = None.
+Proof. exact conv_rsa_missing_required. Qed.
+Print Assumptions C12_conv_rsa_missing_required.
+
+Theorem C12_conv_rsa_incomplete_factors : forall j,
+  c_present (lookup g_p j) <> c_present (lookup g_q j) -> conv_rsa j = None.
+Proof. exact conv_rsa_incomplete_factors. Qed.
+Print Assumptions C12_conv_rsa_incomplete_factors.
+
+Theorem C12_conv_rsa_incomplete_crt : forall j,
+  ~ (c_present (lookup g_dp j) = c_present (lookup g_dq j) /\ c_present (lookup g_dq j) = c_present (lookup g_qi j)) ->
+  conv_rsa j = None.
+Proof. exact conv_rsa_incomplete_crt. Qed.
+Print Assumptions C12_conv_rsa_incomplete_crt.
+
+Theorem C12_conv_rsa_bad_member : forall j m v,
+  In m c_rsa_key_members -> lookup m j = Some v -> c_nz_member v = false -> conv_rsa j = None.
+Proof. exact conv_rsa_bad_member. Qed.
+Print Assumptions C12_conv_rsa_bad_member.
+
+Theorem C12_conv_ec_missing_required : forall valid j,
+  lookup g_crv j = None \/ lookup g_x j = None \/ lookup g_y j = None -> conv_ec valid j = None.
+Proof. exact conv_ec_missing_required. Qed.
+Print Assumptions C12_conv_ec_missing_required.
+
+Theorem C12_conv_ec_unknown_curve : forall valid j crv,
+  g_req_s g_crv j = Some crv -> g_curve_of_name crv = None -> conv_ec valid j = None.
+Proof. exact conv_ec_unknown_curve. Qed.
+Print Assumptions C12_conv_ec_unknown_curve.
+
+Theorem C12_conv_ec_invalid_refused : forall valid j c,
+  g_req_s g_crv j = Some (g_curve_name c) ->
+  valid c (c_num (lookup g_x j) mod g_curve_p c) (c_num (lookup g_y j) mod g_curve_p c) (c_num_opt (lookup g_d j)) = false ->
+  conv_ec valid j = None.
+Proof. exact conv_ec_invalid_refused. Qed.
+Print Assumptions C12_conv_ec_invalid_refused.
+
+Theorem C12_conv_ec_zero_coordinate_refused : forall valid j c m,
+  m = g_x \/ m = g_y -> g_req_s g_crv j = Some (g_curve_name c) -> c_num (lookup m j) mod g_curve_p c = 0 ->
+  conv_ec valid j = None.
+Proof. exact conv_ec_zero_coordinate_refused. Qed.
+Print Assumptions C12_conv_ec_zero_coordinate_refused.
+
+Theorem C12_conv_oct_empty_refused : forall j, lookup g_k j = Some (JStr []) -> conv_oct j = None.
+Proof. exact conv_oct_empty_refused. Qed.
+Print Assumptions C12_conv_oct_empty_refused.
+
+(* "oth" never survives *)
+Theorem C12_conv_rsa_oth_dropped : forall j j', conv_rsa j = Some j' -> lookup g_oth j' = None.
+Proof. exact conv_rsa_oth_dropped. Qed.
+Print Assumptions C12_conv_rsa_oth_dropped.
+
+(* ---- readings of the clause that are false of the C code, with their witnesses ---- *)
+
+Theorem C12_conv_ec_field_length_suffices_refuted :
+  exists j j' s b,
+    lookup g_kty j = Some (JStr g_EC) /\ lookup g_crv j = Some (JStr g_P256) /\
+    lookup g_x j = Some (JStr s) /\ dec s = Some b /\ blen b = g_curve_len GC256 /\
+    c_req_fixed (g_curve_len GC256) (lookup g_y j) = true /\
+    conv c_valid_sec1 j = Some j' /\
+    lookup g_x j' <> lookup g_x j /\ c_num (lookup g_x j') <> c_num (lookup g_x j) /\
+    jwk_eql j j' = false.
+Proof. exact conv_ec_field_length_suffices_refuted. Qed.
+Print Assumptions C12_conv_ec_field_length_suffices_refuted.
+
+Theorem C12_conv_oct_any_octets_refuted :
+  exists j s b, lookup g_kty j = Some (JStr g_oct) /\ lookup g_k j = Some (JStr s) /\ dec s = Some b /\
+    forall valid, conv valid j = None.
+Proof. exact conv_oct_any_octets_refuted. Qed.
+Print Assumptions C12_conv_oct_any_octets_refuted.
+
+Theorem C12_conv_keeps_every_private_member_refuted :
+  exists j j' t m, In t jwk_types /\ t_kty t = g_RSA /\ In m (t_prv t) /\
+    lookup m j <> None /\ (forall valid, conv valid j = Some j') /\ lookup m j' = None.
+Proof. exact conv_keeps_every_private_member_refuted. Qed.
+Print Assumptions C12_conv_keeps_every_private_member_refuted.
+
+Theorem C12_conv_preserves_thp_unconditionally_refuted :
+  exists j j', (forall valid, conv valid j = Some j') /\ thp_object j <> None /\
+    thp_object j' <> thp_object j /\ jwk_eql j j' = false.
+Proof. exact conv_preserves_thp_unconditionally_refuted. Qed.
+Print Assumptions C12_conv_preserves_thp_unconditionally_refuted.
+
+(* ---- the premises are satisfiable: n = 3233 = 61 * 53, e = 17 with all private members; the P-256 base point ---- *)
+
+Example C12_conv_ex_rsa :
+  lookup g_kty c_ex_rsa = Some (JStr g_RSA) /\ c_rsa_canonical c_ex_rsa = true /\
+  map (fun m => c_num (lookup m c_ex_rsa)) c_rsa_key_members = [3233; 17; 413; 61; 53; 53; 49; 38] /\
+  conv conv_valid_true c_ex_rsa =
+  Some (JObj [(g_kty, JStr g_RSA); (g_n, JStr [68; 75; 69]); (g_e, JStr [69; 81]); (g_d, JStr [65; 90; 48]);
+              (g_p, JStr [80; 81]); (g_q, JStr [78; 81]); (g_dp, JStr [78; 81]); (g_dq, JStr [77; 81]); (g_qi, JStr [74; 103])]).
+Proof. vm_compute. repeat split. Qed.
+
+Example C12_conv_ex_ec :
+  let j := c_ex_ec in
+  lookup g_kty j = Some (JStr g_EC) /\ lookup g_crv j = Some (JStr (g_curve_name GC256)) /\
+  c_req_fixed (g_curve_len GC256) (lookup g_x j) = true /\ c_req_fixed (g_curve_len GC256) (lookup g_y j) = true /\
+  c_opt_fixed (g_curve_len GC256) (lookup g_d j) = true /\
+  c_num (lookup g_x j) < g_curve_p GC256 /\ c_num (lookup g_y j) < g_curve_p GC256 /\
+  conv_valid_true GC256 (c_num (lookup g_x j)) (c_num (lookup g_y j)) (c_num_opt (lookup g_d j)) = true /\
+  c_valid_sec1 GC256 (c_num (lookup g_x j)) (c_num (lookup g_y j)) (c_num_opt (lookup g_d j)) = true /\
+  conv c_valid_sec1 j =
+  Some (JObj [(g_kty, JStr g_EC); (g_crv, JStr g_P256); (g_x, JStr (enc (g_be 32 c_ex_gx))); (g_y, JStr (enc (g_be 32 c_ex_gy)))]).
+Proof. vm_compute. repeat split. Qed.
+
+Example C12_conv_ex_leading_zero :
+  conv conv_valid_true c_ex_rsa_lz = Some c_ex_rsa_lz_out /\
+  c_num (lookup g_n c_ex_rsa_lz) = c_num (lookup g_n c_ex_rsa_lz_out) /\
+  jwk_eql c_ex_rsa_lz c_ex_rsa_lz_out = false.
+Proof. vm_compute. repeat split. Qed.
+
+Example C12_conv_ex_oct :
+  conv conv_valid_true (JObj [(g_kty, JStr g_oct); (g_k, JStr [65; 65; 69; 67]); (g_alg, JStr [72; 83; 50; 53; 54])])
+  = Some (JObj [(g_kty, JStr g_oct); (g_k, JStr [65; 65; 69; 67])]).
 Proof. vm_compute. reflexivity. Qed.
